@@ -61,7 +61,13 @@ import sess  # noqa: E402
 
 REPLIES = ["", "1", "abc", "\"", "\"\"", "1,2", ",", "\"a,b\",7", " 5 ", "1E400", "&HFFFF", "x" * 1025, "é" * 600, "\t", "1,2,3,4,5,6,7,8,9",
            "-", "1e", "\"unterminated", "a\"b", "NEW", "RUN", "10 PRINT 1"]
-DIRECT = ["RUN", "RUN 20", "LIST", "LIST 10-20", "CONT", "NEW", "RENUM", "RENUM 5,0,0", "RENUM 65529", "DELETE 10", "DELETE 10-", "DELETE",
+EXTREME = ["A%%=-32767-1:B%%=-1:PRINT A%% %s B%%" % op for op in ("MOD", "\\", "*", "+", "-", "/", "AND", "OR", "XOR", "IMP", "EQV", "=", "<")] + \
+          ["A%=-32767-1:PRINT -A%", "A%=-32767-1:PRINT ABS(A%)", "A%=-32767-1:PRINT A%-1", "A%=32767:PRINT A%+1", "A%=-32767-1:PRINT A% MOD -.5",
+           "A%=-32767-1:PRINT NOT A%", "A%=-32767-1:PRINT A%\\.4", "A%=-32767-1:PRINT A%^2;A%^0", "PRINT 0^0;2^15;(-2)^15;(-2)^16", "A%=-32767-1:PRINT SGN(A%);INT(A%);FIX(A%);CINT(A%)",
+           "A%=-32767-1:PRINT HEX$(A%);OCT$(A%);STR$(A%)", "A%=-32767-1:PRINT CHR$(A%)", "A%=-32767-1:PRINT LEFT$(\"x\",A%)", "A%=-32767-1:PRINT SPC(A%)",
+           "A%=-32767-1:PRINT TAB(A%)", "A%=-32767-1:DIM Q9(A%)", "A%=-32767-1:FOR I%=A% TO A%+1 STEP -1:NEXT", "A%=32767:FOR I%=A%-1 TO A%:NEXT",
+           "PRINT 1E38*1E38;-1E38*1E38;1D308*10", "PRINT 1/0", "PRINT 0/0", "PRINT 1\\0", "PRINT 1 MOD 0", "PRINT SQR(-1);SQR(0);SQR(2)"]
+DIRECT = EXTREME + ["RUN", "RUN 20", "LIST", "LIST 10-20", "CONT", "NEW", "RENUM", "RENUM 5,0,0", "RENUM 65529", "DELETE 10", "DELETE 10-", "DELETE",
           "SAVE \"f\"", "LOAD \"f\"", "RUN \"f\"", "CLEAR", "PRINT 1/0", "PRINT -(-32767-1)", "PRINT ABS(-32767-1)", "A$=INKEY$", "INPUT Q", "INPUT Q$,R$",
           "GOTO 10", "GOSUB 10", "RETURN", "NEXT", "WEND", "FOR I=1 TO 1E30", "DIM Z(32767)", "DIM Z(10,10,10,10)", "PRINT STRING$(255,\"x\")+STRING$(255,\"y\")",
           "X$=STRING$(255,\"é\"):PRINT LEN(X$+X$+X$)", "PRINT CHR$(-1)", "PRINT MID$(\"abc\",0)", "PRINT LEFT$(\"é日\",1)", "PRINT VAL(\"1E400\")", "TRON", "TROFF",
@@ -171,6 +177,15 @@ def legal_session_cases(tier, rng):
         calls += [sess.E("PRINT 7"), "R5000"]
         out.append(Case(sess.session(calls), sig="terminal session %d: %d calls" % (si, len(calls)), tag="terminal-session", profile="dbg",
                         meta=("session", 0)))
+    # every statement with operands at the ends of the Integer range, once, in both profiles
+    for prof in ("dev", "dbg"):
+        for chunk in range(0, len(EXTREME), 8):
+            calls = ["R5000"]
+            for e in EXTREME[chunk:chunk + 8]:
+                calls += [sess.E(e), "R5000", "I", "R5000"]
+            calls += [sess.E("PRINT 7"), "R5000"]
+            out.append(Case(sess.session(calls), sig="extreme operands: " + " / ".join(EXTREME[chunk:chunk + 8]), tag="extreme", profile=prof,
+                            meta=("session", 0)))
     # pools at their edge when a reply arrives (the value stack holds the reply's fields)
     for depth in (65520, 65526, 65528, 65530, 65532):
         for stmt, reply in (("INPUT A,B,C,D,E,F,G,H", "1,2,3,4,5,6,7,8"), ("INPUT A$", "x"), ("A$=INKEY$", "k"), ("INPUT A,B", "1")):
